@@ -250,6 +250,7 @@ func (s *ASpec) build() (*core.Spec, error) {
 		}
 		return nil, &core.ActionSource{Interpreter: "ecmascript", Source: a.P.JS()}
 	}
+	var given []interface{}
 	for name, nd := range s.Nodes {
 		n := &core.Node{}
 		n.Action, n.ActionSource = act(nd.Action)
@@ -259,6 +260,7 @@ func (s *ASpec) build() (*core.Spec, error) {
 				br := &core.Branch{Target: b.Target}
 				if b.HasPattern {
 					br.Pattern = deepCopy(b.Pattern, nil)
+					given = append(given, br.Pattern)
 				}
 				br.Guard, br.GuardSource = act(b.Guard)
 				n.Branches.Branches = append(n.Branches.Branches, br)
@@ -279,6 +281,11 @@ func (s *ASpec) build() (*core.Spec, error) {
 	}
 	if err := spec.Compile(context.Background(), interpreters(), true); err != nil {
 		return nil, err
+	}
+	// the pattern values handed to Compile stay the builder's: it goes on to use them for something else, and the
+	// compiled specification is not affected
+	for _, x := range given {
+		scribble(x)
 	}
 	for name, nd := range s.Nodes {
 		if nd.Uncompiled {
@@ -558,5 +565,23 @@ func normText(x interface{}) interface{} {
 		return v
 	default:
 		return x
+	}
+}
+
+// scribble overwrites a JSON value in place: every map gets another member and loses the ones it had, every list
+// another first element.
+func scribble(x interface{}) {
+	switch v := x.(type) {
+	case map[string]interface{}:
+		for k, y := range v {
+			scribble(y)
+			delete(v, k)
+		}
+		v["zz-scribbled"] = "?zz"
+	case []interface{}:
+		for i, y := range v {
+			scribble(y)
+			v[i] = "scribbled"
+		}
 	}
 }
